@@ -9,6 +9,7 @@ Element specs: see `specOf`.  Requests:
   {"op":"flat","prog":[spec..],"flow":[v..]}     Sequence(*meta.flatten(Sequence(*prog))).run(flow)
   {"op":"fold","prog":[spec..],"flow":[v..]}     compose the documented transformations `Element.den` of the flattened
                                                  data elements (the right-hand side of `run_eq_fold`)
+  {"op":"flats","prog":[spec..]}                 number of top-level elements after dissolving nested {"k":"seq"} groups
   {"op":"source","args":[spec..]}                Source(*args)()
   {"op":"source_then","args":[..],"prog":[..]}   Sequence(*prog).run(Source(*args)())
   {"op":"flags","spec":spec}                     what the constructors can observe of the object
@@ -109,6 +110,7 @@ partial def specOf (j : Json) : Option Spec :=
   | some "syn" => do
     some (.syn (← attrOf (getD j "run")) (← bool? (getD j "call")) (← attrOf (getD j "fill"))
       (← attrOf (getD j "compute")) (← bool? (getD j "nodata")))
+  | some "run" => do some (.runAdapter (← specOf (getD j "el")))
   | some "junk" => some .junk
   | some "setctx" => some .setContext
   | some "gen" => (valuesOf (getD j "flow")).map Spec.gen
@@ -173,6 +175,10 @@ def handle (j : Json) : Json :=
         | .error e => initErr e
         | .ok t => outJson (composeS ((dataSeq (flatten t)).map Element.den) flow)
     | _, _ => err "bad fold args"
+  | some "flats" =>
+    match specsOf (getD j "prog") with
+    | some prog => Json.mkObj [("n", ofNat (Spec.flats prog).length)]
+    | none => err "bad flats args"
   | some "source" =>
     match specsOf (getD j "args") with
     | some args =>
